@@ -24,8 +24,9 @@
    receiver at once: every behaviour of the unbuffered channel is a behaviour of that model
    (sound for the safety theorems).
 
-   Fields named "ghost" (s_sent, s_deliv, cin, cout, p_got, p_sawEOF, p_pulls, p_srcclosed,
-   h_closed) are history variables: written, never read by the operational part. *)
+   Fields named "ghost" (s_sent, s_deliv, the [done] part of RArr, cin, cout, p_got, p_sawEOF,
+   p_pulls, p_srcclosed, h_closed, h_got, h_eof, f_eof) are history variables: written, never
+   read by the operational part. *)
 From Eino Require Import Base.Util.
 
 (* ------------------------------------------------------------------ items *)
@@ -138,7 +139,7 @@ Definition array_stream (arr : list N) : stream :=
 (* ------------------------------------------------------------------ readers *)
 
 Inductive rd : Type :=
-| RArr (rest : list N)                               (* arrayReader: arr[index:] *)
+| RArr (done rest : list N)                          (* arrayReader: arr[index:]; ghost: what this reader object delivered *)
 | RStr (s : nat)                                     (* readerTypeStream *)
 | RMul (sts : list nat) (chosen : list nat)          (* multiStreamReader: sts, chosenList *)
 | RConv (f : cfun) (src : rd) (cin cout : list item) (* streamReaderWithConvert; ghost logs *)
@@ -203,10 +204,10 @@ Fixpoint recv (fuel : nat) (st : store) (t : rd) (ch : list nat) {struct fuel}
   | O => (PFuel, st, t, ch)
   | S fuel' =>
     match t with
-    | RArr rest =>
+    | RArr done rest =>
         match rest with
         | [] => (PEOF, st, t, ch)
-        | x :: r => (PItem (IVal x), st, RArr r, ch)
+        | x :: r => (PItem (IVal x), st, RArr (done ++ [x]) r, ch)
         end
     | RStr sid =>
         match nth_error (streams st) sid with
@@ -309,7 +310,7 @@ Fixpoint close_rd (fuel : nat) (st : store) (t : rd) {struct fuel} : clres * sto
   | O => (ClFuel, st)
   | S fuel' =>
     match t with
-    | RArr _ => (ClOk, st)
+    | RArr _ _ => (ClOk, st)
     | RStr sid => close_streams st [sid]
     | RMul sts _ => close_streams st sts
     | RConv _ src _ _ => close_rd fuel' st src
@@ -338,12 +339,15 @@ Inductive fstate : Type :=
 | FClosing              (* ret.closeSend() done, about to close the source *)
 | FDone.
 
-Record fwd : Type := mkF { f_src : rd; f_dst : nat; f_st : fstate }.
+Record fwd : Type := mkF { f_src : rd; f_dst : nat; f_st : fstate;
+                           f_eof : bool (* ghost: the loop ended because the source returned io.EOF *) }.
 
 Record handle : Type := mkH {
   h_rd : rd;
   h_live : bool;        (* false: consumed by Copy / Merge / Convert *)
-  h_closed : bool       (* ghost: user code called Close on it *)
+  h_closed : bool;      (* ghost: user code called Close on it *)
+  h_got : list item;    (* ghost: items Recv returned on this handle, in order *)
+  h_eof : bool          (* ghost: Recv returned io.EOF on this handle *)
 }.
 
 Record state : Type := mkState {
@@ -387,7 +391,7 @@ Definition set_handle (G : state) (h : nat) (H : handle) : state :=
 
 Definition consume (G : state) (h : nat) : state :=
   match nth_error (st_handles G) h with
-  | Some H => set_handle G h (mkH (h_rd H) false (h_closed H))
+  | Some H => set_handle G h (mkH (h_rd H) false (h_closed H) (h_got H) (h_eof H))
   | None => G
   end.
 
@@ -417,12 +421,12 @@ Fixpoint merge_collect (st : store) (fw : list fwd) (ts : list rd) (ss : list na
   | t :: r =>
     match t with
     | RStr s => merge_collect st fw r (ss ++ [s]) arr
-    | RArr rest => merge_collect st fw r ss (arr ++ rest)
+    | RArr _ rest => merge_collect st fw r ss (arr ++ rest)
     | RMul sts _ => merge_collect st fw r (ss ++ sts) arr
     | RConv _ _ _ _ | RChild _ _ =>
         (* toStream(): ret := newStream(5); go forward *)
         let sid := List.length (streams st) in
-        merge_collect (add_stream st (new_stream 5 false)) (fw ++ [mkF t sid FRecv]) r (ss ++ [sid]) arr
+        merge_collect (add_stream st (new_stream 5 false)) (fw ++ [mkF t sid FRecv false]) r (ss ++ [sid]) arr
     end
   end.
 
@@ -435,10 +439,10 @@ Definition do_op (fuel : nat) (G : state) (o : op) : obs * state :=
       let sid := List.length (streams (st_store G)) in
       let h := List.length (st_handles G) in
       (BNew [h], mkState (add_stream (st_store G) (new_stream cap true)) (st_fwds G)
-                         (st_handles G ++ [mkH (RStr sid) true false]))
+                         (st_handles G ++ [mkH (RStr sid) true false [] false]))
   | OArray xs =>
       let h := List.length (st_handles G) in
-      (BNew [h], mkState (st_store G) (st_fwds G) (st_handles G ++ [mkH (RArr xs) true false]))
+      (BNew [h], mkState (st_store G) (st_fwds G) (st_handles G ++ [mkH (RArr [] xs) true false [] false]))
   | OCopy h n =>
       match live_rd G h with
       | None => (BIllegal, G)
@@ -448,14 +452,14 @@ Definition do_op (fuel : nat) (G : state) (o : op) : obs * state :=
           let h0 := List.length (st_handles G) in
           let S1 := consume G h in
           match t with
-          | RArr rest =>
+          | RArr _ rest =>
               (BNew (seq h0 n),
-               mkState (st_store S1) (st_fwds S1) (st_handles S1 ++ repeat (mkH (RArr rest) true false) n))
+               mkState (st_store S1) (st_fwds S1) (st_handles S1 ++ repeat (mkH (RArr [] rest) true false [] false) n))
           | _ =>
               let p := List.length (parents (st_store S1)) in
               (BNew (seq h0 n),
                mkState (add_parent (st_store S1) (new_parent t n)) (st_fwds S1)
-                       (st_handles S1 ++ map (fun i => mkH (RChild p i) true false) (seq 0 n)))
+                       (st_handles S1 ++ map (fun i => mkH (RChild p i) true false [] false) (seq 0 n)))
           end
       end
   | OMerge hs =>
@@ -472,15 +476,15 @@ Definition do_op (fuel : nat) (G : state) (o : op) : obs * state :=
           let h0 := List.length (st_handles S1) in
           match ss, arr with
           | [], _ :: _ =>
-              (BNew [h0], mkState st1 fw1 (st_handles S1 ++ [mkH (RArr arr) true false]))
+              (BNew [h0], mkState st1 fw1 (st_handles S1 ++ [mkH (RArr [] arr) true false [] false]))
           | _, _ :: _ =>
               let sid := List.length (streams st1) in
               let ss' := ss ++ [sid] in
               (BNew [h0], mkState (add_stream st1 (array_stream arr)) fw1
-                                  (st_handles S1 ++ [mkH (RMul ss' (seq 0 (List.length ss'))) true false]))
+                                  (st_handles S1 ++ [mkH (RMul ss' (seq 0 (List.length ss'))) true false [] false]))
           | _, [] =>
               (BNew [h0], mkState st1 fw1
-                                  (st_handles S1 ++ [mkH (RMul ss (seq 0 (List.length ss))) true false]))
+                                  (st_handles S1 ++ [mkH (RMul ss (seq 0 (List.length ss))) true false [] false]))
           end
         end
       end
@@ -490,7 +494,7 @@ Definition do_op (fuel : nat) (G : state) (o : op) : obs * state :=
       | Some t =>
           let h0 := List.length (st_handles G) in
           let S1 := consume G h in
-          (BNew [h0], mkState (st_store S1) (st_fwds S1) (st_handles S1 ++ [mkH (RConv f t [] []) true false]))
+          (BNew [h0], mkState (st_store S1) (st_fwds S1) (st_handles S1 ++ [mkH (RConv f t [] []) true false [] false]))
       end
   | OSend sid x =>
       match nth_error (streams (st_store G)) sid with
@@ -514,7 +518,11 @@ Definition do_op (fuel : nat) (G : state) (o : op) : obs * state :=
       | Some H =>
           if negb (h_live H) then (BIllegal, G) else
           let '(r, st1, t1, _) := recv fuel (st_store G) (h_rd H) ch in
-          (BRecv r, mkState st1 (st_fwds G) (upd (st_handles G) h (mkH t1 true (h_closed H))))
+          (BRecv r, mkState st1 (st_fwds G)
+                            (upd (st_handles G) h
+                                 (mkH t1 true (h_closed H)
+                                      (match r with PItem x => h_got H ++ [x] | _ => h_got H end)
+                                      (match r with PEOF => true | _ => h_eof H end))))
       end
   | OClose h =>
       match nth_error (st_handles G) h with
@@ -522,7 +530,7 @@ Definition do_op (fuel : nat) (G : state) (o : op) : obs * state :=
       | Some H =>
           if negb (h_live H) then (BIllegal, G) else
           let '(r, st1) := close_rd fuel (st_store G) (h_rd H) in
-          (BClose r, mkState st1 (st_fwds G) (upd (st_handles G) h (mkH (h_rd H) true true)))
+          (BClose r, mkState st1 (st_fwds G) (upd (st_handles G) h (mkH (h_rd H) true true (h_got H) (h_eof H))))
       end
   | OFwd k ch =>
       match nth_error (st_fwds G) k with
@@ -533,7 +541,7 @@ Definition do_op (fuel : nat) (G : state) (o : op) : obs * state :=
           | FRecv =>
               let '(r, st1, src1, _) := recv fuel (st_store G) (f_src F) ch in
               match r with
-              | PItem x => (BStep, mkState st1 (upd (st_fwds G) k (mkF src1 (f_dst F) (FSend x))) (st_handles G))
+              | PItem x => (BStep, mkState st1 (upd (st_fwds G) k (mkF src1 (f_dst F) (FSend x) (f_eof F))) (st_handles G))
               | PEOF =>
                   (* break; deferred: ret.closeSend() *)
                   match nth_error (streams st1) (f_dst F) with
@@ -541,9 +549,9 @@ Definition do_op (fuel : nat) (G : state) (o : op) : obs * state :=
                   | Some d =>
                       let '(_, d') := stream_close_send d in
                       (BStep, mkState (set_stream st1 (f_dst F) d')
-                                      (upd (st_fwds G) k (mkF src1 (f_dst F) FClosing)) (st_handles G))
+                                      (upd (st_fwds G) k (mkF src1 (f_dst F) FClosing true)) (st_handles G))
                   end
-              | _ => (BStep, mkState st1 (upd (st_fwds G) k (mkF src1 (f_dst F) FRecv)) (st_handles G))
+              | _ => (BStep, mkState st1 (upd (st_fwds G) k (mkF src1 (f_dst F) FRecv (f_eof F))) (st_handles G))
               end
           | FSend x =>
               match nth_error (streams (st_store G)) (f_dst F) with
@@ -552,18 +560,18 @@ Definition do_op (fuel : nat) (G : state) (o : op) : obs * state :=
                   match stream_send d x with
                   | (SOk, d') =>
                       (BStep, mkState (set_stream (st_store G) (f_dst F) d')
-                                      (upd (st_fwds G) k (mkF (f_src F) (f_dst F) FRecv)) (st_handles G))
+                                      (upd (st_fwds G) k (mkF (f_src F) (f_dst F) FRecv (f_eof F))) (st_handles G))
                   | (SClosed, _) =>
                       let '(_, d') := stream_close_send d in
                       (BStep, mkState (set_stream (st_store G) (f_dst F) d')
-                                      (upd (st_fwds G) k (mkF (f_src F) (f_dst F) FClosing)) (st_handles G))
+                                      (upd (st_fwds G) k (mkF (f_src F) (f_dst F) FClosing (f_eof F))) (st_handles G))
                   | (_, _) => (BStep, G)
                   end
               end
           | FClosing =>
               (* deferred: srw.close() / csr.close() *)
               let '(_, st1) := close_rd fuel (st_store G) (f_src F) in
-              (BStep, mkState st1 (upd (st_fwds G) k (mkF (f_src F) (f_dst F) FDone)) (st_handles G))
+              (BStep, mkState st1 (upd (st_fwds G) k (mkF (f_src F) (f_dst F) FDone (f_eof F))) (st_handles G))
           end
       end
   end.
@@ -639,7 +647,7 @@ Fixpoint strands (fuel : nat) (G : state) (w : nat -> list item) (t : rd) {struc
         end
       end in
     match t with
-    | RArr rest => Some [map IVal rest]
+    | RArr done rest => Some [map IVal (done ++ rest)]
     | RStr sid => of_stream sid
     | RMul sts _ => opt_concat (map of_stream sts)
     | RConv f src _ _ =>
@@ -673,7 +681,7 @@ Fixpoint feeds (fuel : nat) (G : state) (t : rd) {struct fuel} : option (list (n
         end
       end in
     match t with
-    | RArr _ => Some []
+    | RArr _ _ => Some []
     | RStr sid => of_stream sid
     | RMul sts _ => opt_concat (map of_stream sts)
     | RConv _ src _ _ => feeds fuel' G src
